@@ -1,6 +1,7 @@
 package main
 
 import (
+	"runtime"
 	"encoding/json"
 	"flag"
 	"fmt"
@@ -89,6 +90,15 @@ func specs() map[string]propSpec {
 	}
 
 	o := full
+	o.P4 = []string{"sink", "valign", "packright", "ns", "bk", "bk0", "bk1", "bk2", "bk3"}
+	o.P5 = []string{"polyline", "straight", "ortho", "noop"}
+	o.MaxN = 14
+	if v := os.Getenv("VH_MAXN"); v != "" {
+		fmt.Sscan(v, &o.MaxN)
+	}
+	m["C01"] = propSpec{opts: o, gen: baseGen(o), oracle: layoutThen(oracleC01), rule: "random multigraphs up to 14 nodes per part (cycles, parallel and antiparallel edges, self-loops, several components) x every production algorithm (splines apart) x size options; watchdog: 20 s and 4 GiB per call"}
+
+	o = full
 	o.P4 = []string{"sink", "valign", "packright", "bk", "bk0", "bk1", "bk2", "bk3"}
 	o.P5 = []string{"polyline", "straight", "ortho", "noop"}
 	m["C02"] = propSpec{opts: o, gen: baseGen(o), oracle: layoutThen(oracleC02), rule: "random multigraphs (10 shapes, self-loops, several components) x algorithm grid x size options; non-trivial = at least 2 edges; distinct by full case key"}
@@ -254,7 +264,14 @@ func runProbe(prop string, seed uint64, n int, outPath string, maxViol int) int 
 		if len(res.Samples) < 3 {
 			res.Samples = append(res.Samples, c)
 		}
-		msgs := sp.oracle(c, r)
+		msgs, hung := guarded(func() []string { return sp.oracle(c, r) })
+		if hung {
+			// the goroutine cannot be stopped: record the case and end the process
+			res.Violations = append(res.Violations, Violation{Property: prop, Case: c, Messages: msgs})
+			res.WallS = time.Since(start).Seconds()
+			writeJSON(outPath, res)
+			return 0
+		}
 		if len(msgs) > 0 {
 			if len(msgs) > 6 {
 				msgs = append(msgs[:6], fmt.Sprintf("... and %d more", len(msgs)-6))
@@ -272,6 +289,42 @@ func runProbe(prop string, seed uint64, n int, outPath string, maxViol int) int 
 	res.WallS = time.Since(start).Seconds()
 	writeJSON(outPath, res)
 	return 0
+}
+
+// guarded evaluates f under a watchdog: wall-clock (VH_CASE_TIMEOUT seconds, default 20) and heap (4 GiB)
+func guarded(f func() []string) (msgs []string, hung bool) {
+	limit := 20.0
+	if v := os.Getenv("VH_CASE_TIMEOUT"); v != "" {
+		fmt.Sscan(v, &limit)
+	}
+	done := make(chan []string, 1)
+	go func() {
+		defer func() {
+			if r := recover(); r != nil {
+				done <- []string{fmt.Sprintf("panic outside Layout: %v", r)}
+			}
+		}()
+		done <- f()
+	}()
+	tick := time.NewTicker(200 * time.Millisecond)
+	defer tick.Stop()
+	deadline := time.After(time.Duration(limit * float64(time.Second)))
+	for {
+		select {
+		case m := <-done:
+			return m, false
+		case <-tick.C:
+			var ms runtime.MemStats
+			runtime.ReadMemStats(&ms)
+			if ms.HeapAlloc > 4<<30 {
+				return []string{fmt.Sprintf("Layout did not return: heap grew beyond 4 GiB (%d MiB)", ms.HeapAlloc>>20)}, true
+			}
+		case <-deadline:
+			buf := make([]byte, 1<<16)
+			n := runtime.Stack(buf, true)
+			return []string{fmt.Sprintf("Layout did not return within %.0fs (hang); goroutines:\n%s", limit, firstLines(string(buf[:n]), 40))}, true
+		}
+	}
 }
 
 // shrinkCase greedily removes edges (and then simplifies options) while the oracle still reports a violation.
